@@ -19,10 +19,14 @@ META = {
         "one returns the stored data; C16.5 registration vs completion is atomic: the callback/extra fields, written by "
         "set_callback and read by the notifier, are only accessed under the future's lock, the notifier consumes the "
         "registration in the critical section in which it reads it (exactly-once), and set_callback stores the "
-        "registration before it tests is_set() (else a completion in between loses the callback)."),
+        "registration before it tests is_set() (else a completion in between loses the callback); C16.6 (shared with C09.3) execute "
+        "invokes the task once, stores the very object it returned with set() on the normal branch only and the very exception it "
+        "raised with raise_exception() in the handler only (the outcome is classified by how the call ended, never by the type of "
+        "the returned value), and re-raises."),
     "does_not_decide": "timing of result(timeout); the interleavings beyond the lockset and ordering clauses.",
     "rules": {"C16.1": "dominance of the stores over the event set (interprocedural through self.set())", "C16.2": "exit-complete event-count exploration",
-              "C16.3": "handler structure + E4 may-raise of the notifier", "C16.4": "dominance / raise sites", "C16.5": "E5 lockset + ordering by dominance"},
+              "C16.3": "handler structure + E4 may-raise of the notifier", "C16.4": "dominance / raise sites", "C16.5": "E5 lockset + ordering by dominance",
+              "C16.6": "provenance of the stored outcome; handler structure (common.check_execute_outcome)"},
     "assumptions": ["threading.Event provides a happens-before edge from set() to a wait() that returns true"],
 }
 
@@ -205,3 +209,7 @@ def check(ck):
     ck.require(len(nt) == 1 and any(gs.nodes[i].kind == "branch" and "is_set()" in dump(gs.nodes[i].test) and gs.nodes[i].polarity for i in ds[nt[0].id]), "C16.5",
                "%s: immediate notification when already done" % q.fn(fsc), "__notify() under `if is_set()`",
                "a callback registered after completion is not invoked immediately", q.loc(fsc, fsc.node))
+
+    # ---- C16.6 the outcome is stored by how the call ended (shared with C09.3) ----------------------------------------------
+    common.check_execute_outcome(ck, "C16.6")
+    ck.floor("C16.6", 6)
